@@ -320,6 +320,13 @@ def explore(fn, budget_s=60.0, per_path_s=20.0, max_paths=10**9, validate=None,
                                                 'native': 'SKIP'})
                         elif nat_ok == (verdict is OK):
                             ex.validated += 1
+                        elif verdict is OK:
+                            # the native run of the real code is authoritative: CrossHair's
+                            # model of an operation was more lenient than CPython
+                            ex.fails.append({'witness': witness,
+                                             'msg': 'NATIVE-ONLY ' + str(nat)[:400]})
+                            if len(ex.fails) >= max_fails:
+                                stop = True
                         else:
                             ex.mismatch.append({'witness': witness, 'symbolic': str(verdict),
                                                 'native': str(nat)})
